@@ -27,6 +27,11 @@ CONFIGS = [
     {"name": "pydantic", "env_unset": ["MCP_FORCE_FALLBACK"]},
     {"name": "fallback", "env_set": {"MCP_FORCE_FALLBACK": "1"}},
 ]
+# the same two backends with the optional fast JSON codec masked: the fallback's JSON path goes through fast_json
+STDLIB_CONFIGS = [
+    {"name": "pydantic+stdlib", "env_unset": ["MCP_FORCE_FALLBACK"], "mask": ["orjson"]},
+    {"name": "fallback+stdlib", "env_set": {"MCP_FORCE_FALLBACK": "1"}, "mask": ["orjson"]},
+]
 AUDIT_MOD = 7
 MAX_STORED_PER_SIG = 4
 UNKNOWN_NAME_SET = {n for _, n in wiregen.UNKNOWN_NAMES} | set(wiregen.RESERVED_NAMES)
@@ -74,13 +79,19 @@ def envelope_cases(tier: str) -> List[Dict[str, Any]]:
     errors = [{"code": -32601, "message": "m"}, {"code": -32000, "message": "", "data": {"k": [1]}},
               {"code": 1, "message": "\u00e9", "data": "s"}, {"code": 0, "message": "x", "data": None},
               {"code": -32603, "message": "m", "x-extra": 1}]
+    # integers outside [-2^63, 2^64-1]: legal JSON numbers which the fast codec refuses
+    big = wiregen.BIG_INTS
+    ids = list(gen.IDS) + big
+    params += [{"n": list(big), "_meta": {"progressToken": big[0]}, "total": big[2]}]
+    results += [{"total": big[0], "items": [{"n": big[1]}], "nextCursor": "c"}, big[2]]
+    errors += [{"code": -32000, "message": "m", "data": {"n": list(big)}}]
     methods = ["ping", "tools/call", "notifications/message", "x/\u00e9"]
     out: List[Dict[str, Any]] = []
 
     def add(kind, label, w):
         out.append({"part": "envelopes", "target": "parse_message", "label": f"{kind}:{label}", "wire": w})
 
-    for ii, i in enumerate(gen.IDS):
+    for ii, i in enumerate(ids):
         for m in methods[:2]:
             for pi, p in enumerate(params):
                 w = {"jsonrpc": "2.0", "id": i, "method": m}
@@ -107,7 +118,7 @@ def envelope_cases(tier: str) -> List[Dict[str, Any]]:
             out.append({"part": "envelopes", "target": "parse_message", "label": f"unknown:{nk}=scalar@<top>/{kind}",
                         "wire": {**base, name: 7}})
     # batches (a list is what parse_message takes for one)
-    for ii, i in enumerate(gen.IDS):
+    for ii, i in enumerate(ids):
         add("batch", f"requests/id#{ii}", [{"jsonrpc": "2.0", "id": i, "method": "ping"},
                                            {"jsonrpc": "2.0", "method": "notifications/message", "params": {"k": 1}}])
         add("batch", f"responses/id#{ii}", [{"jsonrpc": "2.0", "id": i, "result": {}},
@@ -433,6 +444,9 @@ def check_configs(hello: Dict[str, Dict[str, Any]]) -> None:
         raise core.HarnessError(f"the pydantic worker does not run Pydantic: {hello['pydantic']}")
     if hello["fallback"].get("PYDANTIC_AVAILABLE") is not False:
         raise core.HarnessError(f"the fallback worker does not run the fallback: {hello['fallback']}")
+    for n in ("pydantic", "fallback"):
+        if hello[n].get("HAS_ORJSON") is not True:
+            raise core.HarnessError(f"orjson is not importable in the {n} worker: the orjson-present configurations cannot be compared")
 
 
 def run(tier: str, only=None) -> core.Result:
@@ -450,6 +464,26 @@ def run(tier: str, only=None) -> core.Result:
     wcases = [wire_case(c) for c in cases]
     im_cases = inputmut_cases(tier, mcases) if (not only or "models" in only) else []
     im_join = start_inputmut(HANDLER, im_cases) if im_cases else None
+    extra_box: Dict[str, Any] = {}
+
+    def run_extra():
+        from .. import orderdep as _od
+
+        def go(cfg):
+            with workers.Pool(cfg, HANDLER, max(1, workers.per_config_workers(4))) as pool:
+                a = pool.map(wcases)
+                h = pool.hello
+            return h, a, workers.audit(cfg, HANDLER, wcases, a, AUDIT_MOD * 3, cap=5000)
+
+        try:
+            extra_box["got"] = _od.per_config(STDLIB_CONFIGS, go)
+        except BaseException as e:  # noqa: BLE001
+            extra_box["err"] = e
+
+    import threading as _th
+
+    extra_thread = _th.Thread(target=run_extra)
+    extra_thread.start()
     pools = start_pools(workers.per_config_workers(len(CONFIGS)))
     try:
         hello = {n: p.hello for n, p in pools.items()}
@@ -492,11 +526,13 @@ def run(tier: str, only=None) -> core.Result:
     part_count: Dict[str, int] = {}
     reject_reasons: Dict[str, int] = {}
     spec_valid_distinct = set()
+    primary_sigs: List[set] = []
     for c, ap, af in zip(cases, answers["pydantic"], answers["fallback"]):
         for a in (ap, af):
             if "harness_exc" in a:
                 res.harness_errors.append(f"worker exception on {c['target']} {c['label']}: {a['harness_exc'][-400:]}")
         if res.harness_errors and any("worker exception" in h for h in res.harness_errors[-2:]):
+            primary_sigs.append(set())
             continue
         part_count[c["part"]] = part_count.get(c["part"], 0) + 1
         out = compare(c, ap, af)
@@ -515,6 +551,7 @@ def run(tier: str, only=None) -> core.Result:
             pc["accepted_by_fallback"] += 1
         config_cls = c["target"] != "parse_message" and wiregen.is_config_class(wiregen.resolve(c["target"]))
         seen_here = set()
+        primary_sigs.append(seen_here)
         for sig, msg in out["violations"]:
             k = json.dumps(sig, sort_keys=True)
             if k in seen_here:
@@ -554,6 +591,8 @@ def run(tier: str, only=None) -> core.Result:
             if not hits.get(e):
                 res.harness_errors.append(f"the generator never populated the aliased member {e[3]} of {e[2]} inside the list {e[0]}.{e[1]}")
 
+    audit_extra = {"reasked": 0}
+
     def store(sig, msg, replay_args):
         k = json.dumps(sig, sort_keys=True)
         sig_count[k] = sig_count.get(k, 0) + 1
@@ -591,6 +630,43 @@ def run(tier: str, only=None) -> core.Result:
                                    f"{wiregen.short(qa)}: {msg}",
                               {"target": c["target"], "part": "pair-order", "label": c["label"], "wire": enc(c["wire"]),
                                "history": [{"target": h["target"], "wire": enc(h["wire"])} for h in by_class[qa]]})
+
+    # the two backends with the fast JSON codec masked: the Pydantic worker must answer exactly as with orjson present, the
+    # fallback worker is compared with the (orjson-present) Pydantic reference like the primary fallback worker
+    extra_thread.join()
+    codec_info: Dict[str, Any] = {"configurations": {}, "cases_per_configuration": len(cases), "new_disagreements": 0}
+    if "err" in extra_box:
+        res.harness_errors.append(f"stdlib-codec workers failed: {extra_box['err']}")
+    else:
+        for n_, (h_, a_, au_) in extra_box["got"].items():
+            codec_info["configurations"][n_] = {k_: h_.get(k_) for k_ in ("PYDANTIC_AVAILABLE", "HAS_ORJSON")}
+            if h_.get("HAS_ORJSON") is not False or h_.get("PYDANTIC_AVAILABLE") is not (n_ == "pydantic+stdlib"):
+                res.harness_errors.append(f"configuration {n_} did not take effect: {codec_info['configurations'][n_]}")
+            audit_extra["reasked"] += au_["reasked"]
+            if au_["mismatches"]:
+                res.harness_errors.append(f"nondeterministic answer of the {n_} worker (case #{au_['first_mismatch_index']})")
+        if not res.harness_errors:
+            ps, fs = extra_box["got"]["pydantic+stdlib"][1], extra_box["got"]["fallback+stdlib"][1]
+            for i, c in enumerate(cases):
+                if c["target"] != "parse_message" and wiregen.is_config_class(wiregen.resolve(c["target"])):
+                    continue
+                model = "parse_message" if c["target"] == "parse_message" else wiregen.short(c["target"])
+                ap = answers["pydantic"][i]
+                if "harness_exc" in ps[i] or "harness_exc" in fs[i] or "harness_exc" in ap:
+                    res.harness_errors.append(f"worker exception (stdlib codec) on {c['target']} {c['label']}")
+                    continue
+                if workers.line(ps[i]) != workers.line(ap):
+                    codec_info["new_disagreements"] += 1
+                    store({"class": "codec-changes-the-answer", "config": "pydantic+stdlib", "model": model},
+                          f"{model} <- {json.dumps(c['wire'], ensure_ascii=True)[:240]}: the Pydantic worker answers differently with "
+                          f"orjson masked: {orderdep.first_difference(ap, ps[i])}",
+                          {"target": c["target"], "part": c["part"], "label": c["label"], "wire": enc(c["wire"]), "config": "pydantic+stdlib"})
+                for sig, msg in compare(c, ap, fs[i])["violations"]:
+                    if json.dumps(sig, sort_keys=True) in primary_sigs[i]:
+                        continue
+                    codec_info["new_disagreements"] += 1
+                    store({**sig, "config": "fallback+stdlib"}, "with orjson masked in the fallback worker: " + msg,
+                          {"target": c["target"], "part": c["part"], "label": c["label"], "wire": enc(c["wire"]), "config": "fallback+stdlib"})
 
     # input mutated after validation: what an already-built object dumps to must react to later edits of the wire object
     # it was built from in the same way under both backends (relational; C10 judges the declared containers absolutely)
@@ -699,7 +775,8 @@ def run(tier: str, only=None) -> core.Result:
     cov["violation_signatures"] = dict(sorted(sig_count.items()))
     cov["unjudged_config_class_disagreements"] = {k: {"cases": n, "example": unjudged_examples[k]}
                                                   for k, n in sorted(unjudged.items())}
-    cov["audit_reasked"] = audit_total + im_audit["reasked"]
+    cov["audit_reasked"] = audit_total + im_audit["reasked"] + audit_extra["reasked"]
+    cov["stdlib_codec_configurations"] = codec_info
     cov["audit_mismatches"] = 0 if audit_order else audit_bad
     cov["audit_mismatches_explained_as_order_dependence"] = audit_bad if audit_order else 0
     cov["same_name_pair_order"] = pair_info
@@ -722,6 +799,7 @@ def run(tier: str, only=None) -> core.Result:
     res.assumptions = [
         "spec-valid = produced by the type-directed generator and accepted by the Pydantic backend; objects Pydantic rejects are counted, not judged",
         "members declared as a Literal constant (jsonrpc, type, method, role) are always present in generated objects: the schemas require them although the classes give them defaults",
+        "four configurations answer every case: {Pydantic, fallback} with orjson importable (the primary comparison) and with orjson masked; integers outside [-2^63, 2^64-1] are in the id, integer-member and free-form positions; nesting deeper than Pydantic's own serialiser follows and lone surrogates are outside the alphabet (Pydantic itself refuses to serialise them)",
         "two numbers are the same JSON value when numerically equal (1 and 1.0); members named id are compared with their JSON type",
         "transport parameter classes (chuk_mcp.transports.*: local configuration, never on the wire; their validators are pydantic decorators) are driven and compared, but their disagreements are listed under unjudged_config_class_disagreements instead of being reported",
         "input mutated after validation: the wire object is edited in place at every dict/list position down to depth 2 (replace a scalar, delete a key/item, add a key/append, clear); both backends share the caller's objects inside free-form values (Any, the values of Dict[str, Any], unknown members), so C09 only demands that the built object reacts the same way under both",
@@ -755,8 +833,8 @@ def replay_case(args: Dict[str, Any]) -> Dict[str, Any]:
     c = {"target": args["target"], "part": args.get("part"), "label": args.get("label"), "wire": dec(args["wire"])}
     hist = [{"op": "validate", "target": h["target"], "wire": h["wire"]} for h in args.get("history", [])]
     ans, alone = {}, {}
-    for cfg in CONFIGS:
-        n = cfg["name"]
+    for cfg in CONFIGS if not args.get("config") else [CONFIGS[0]] + [c_ for c_ in STDLIB_CONFIGS if c_["name"] == args["config"]]:
+        n = "fallback" if cfg["name"] == "fallback+stdlib" else "pydantic" if cfg["name"] == "pydantic" else cfg["name"]
         alone[n] = workers.fresh_sequence(cfg, HANDLER, [wire_case(c)])[0]
         ans[n] = workers.fresh_sequence(cfg, HANDLER, hist + [wire_case(c)])[-1] if hist else alone[n]
     config_cls = c["target"] != "parse_message" and wiregen.is_config_class(wiregen.resolve(c["target"]))
@@ -768,6 +846,11 @@ def replay_case(args: Dict[str, Any]) -> Dict[str, Any]:
                                  "msg": f"after {len(hist)} earlier validations: {orderdep.first_difference(alone[n], ans[n])}"}]
         return {"target": c["target"], "wire": c["wire"], "history_length": len(hist), "alone": alone[n], "after_history": ans[n],
                 "violations": viol}
+    if args.get("config") == "pydantic+stdlib":
+        same = workers.line(ans["pydantic"]) == workers.line(ans["pydantic+stdlib"])
+        return {"target": c["target"], "wire": c["wire"], "answers": ans,
+                "violations": [] if same else [{"sig": {"class": "codec-changes-the-answer", "config": "pydantic+stdlib"},
+                                                "msg": orderdep.first_difference(ans["pydantic"], ans["pydantic+stdlib"])}]}
     out = compare(c, ans["pydantic"], ans["fallback"])
     viols = out["violations"]
     if hist:
